@@ -49,12 +49,11 @@ pub fn from_repr_inner(ast: &DeriveInput) -> syn::Result<TokenStream> {
     let mut has_additional_data = false;
     let mut prev_const_var_ident = None;
     for variant in variants {
-        if variant.get_variant_properties()?.disabled.is_some() {
-            continue;
-        }
+        let disabled = variant.get_variant_properties()?.disabled.is_some();
 
         let ident = &variant.ident;
         let params = match &variant.fields {
+            _ if disabled => quote! {},
             Fields::Unit => quote! {},
             Fields::Unnamed(fields) => {
                 has_additional_data = true;
@@ -83,11 +82,15 @@ pub fn from_repr_inner(ast: &DeriveInput) -> syn::Result<TokenStream> {
             },
         };
 
+        // A disabled variant still takes part in the implicit discriminant chain, so its
+        // constant is always defined; only its match arm is omitted.
         constant_defs.push(quote! {
-            #[allow(non_upper_case_globals)]
+            #[allow(non_upper_case_globals, dead_code)]
             const #const_var_ident: #discriminant_type = #const_val_expr;
         });
-        arms.push(quote! {v if v == #const_var_ident => ::core::option::Option::Some(#name::#ident #params)});
+        if !disabled {
+            arms.push(quote! {v if v == #const_var_ident => ::core::option::Option::Some(#name::#ident #params)});
+        }
 
         prev_const_var_ident = Some(const_var_ident);
     }
